@@ -795,5 +795,71 @@ EXTRA_EXTRACTORS.append(make_facts)
 EXTRA_RENDERERS.append(render_make)
 
 
+
+# --------------------------------------------------------------------------- what a check reads of the checked object (C17)
+
+
+def obj_attr_facts(facts):
+    tree = parse("_array_types.py")
+    attrs, bare, fns = set(), set(), []
+    for name in ("__instancecheck__", "__instancecheck_str__", "_check_shape"):
+        fn = find_def(tree, "_MetaAbstractArray", name)
+        if fn is None:
+            bare.add("MISSING:" + name)
+            continue
+        fns.append(name)
+        if "obj" not in [a.arg for a in fn.args.args]:
+            bare.add("NO-OBJ-PARAM:" + name)
+            continue
+        parents = {}
+        for node in ast.walk(fn):
+            for ch in ast.iter_child_nodes(node):
+                parents[ch] = node
+        for node in ast.walk(fn):
+            if isinstance(node, ast.Name) and node.id == "obj":
+                par = parents.get(node)
+                if isinstance(node.ctx, ast.Store):
+                    bare.add("REBOUND")
+                elif isinstance(par, ast.Attribute) and par.value is node:
+                    attrs.add(par.attr)
+                elif isinstance(par, ast.Call) and node in par.args:
+                    cn = call_name(par)
+                    if cn == "hasattr":
+                        # hasattr(obj, "<name>") reads that attribute
+                        if len(par.args) == 2 and isinstance(par.args[1], ast.Constant):
+                            attrs.add(par.args[1].value)
+                        else:
+                            bare.add("hasattr:dynamic")
+                    bare.add(cn or "CALL:?")
+                else:
+                    bare.add("OTHER:" + type(par).__name__)
+    # _check_dims receives sizes, never the object
+    cd = find_def(tree, "_check_dims")
+    facts["obj_attrs"] = {"attrs": sorted(attrs), "bare": sorted(bare), "functions": fns,
+                          "check_dims_params": [a.arg for a in cd.args.args] if cd is not None else []}
+
+
+def render_obj_attrs(facts):
+    oa = facts["obj_attrs"]
+    txt = f"""/- GENERATED by harness/extract.py from {SRC}/_array_types.py on every run. Do not edit. -/
+namespace JV.Generated
+
+/-- attributes of the checked object read (`obj.<attr>`, `hasattr(obj, "<attr>")`) anywhere in
+    `__instancecheck__`, `__instancecheck_str__`, `_check_shape` -/
+def objAttrsRead : List String := {lean_list([lean_str(x) for x in oa['attrs']])}
+/-- every other use of the bare object: the functions it is handed to; anything else (a comparison,
+    truth test, subscript, iteration ...) shows as `OTHER:<syntax>` -/
+def objBareUses : List String := {lean_list([lean_str(x) for x in oa['bare']])}
+def checkDimsParams : List String := {lean_list([lean_str(x) for x in oa['check_dims_params']])}
+
+end JV.Generated
+"""
+    write_if_changed(os.path.join(GEN, "ObjAttrs.lean"), txt)
+
+
+EXTRA_EXTRACTORS.append(obj_attr_facts)
+EXTRA_RENDERERS.append(render_obj_attrs)
+
+
 if __name__ == "__main__":
     print(json.dumps(run(), indent=1, default=str))
